@@ -33,7 +33,8 @@ class LabelGroup(SupportsConfig):
         if isinstance(value_labels, int):
             value_labels = [value_labels]
 
-        value_labels = list(set(value_labels))
+        # sorted: the order of a set depends on insertion history, which made saved configs irreproducible
+        value_labels = sorted(set(value_labels))
 
         assert (
             len(value_labels) >= 1
